@@ -473,6 +473,18 @@ func Generate(seed uint64, prop, tier string) *Plan {
 		if r.Chance(1, 25) {
 			p.Stop.Source = "boot"
 		}
+		if prop == "C06" && nconn > 0 && r.Chance(1, 30) && p.Stop.Source != "boot" && p.Stop.Source != "tick" {
+			// shutdown under sustained load: one application goroutine keeps writing
+			// asynchronously to a connection (whose peer reads everything) until Run returns
+			p.Stop.AtStep = r.Pick(150, 400, 1000)
+			ci := r.Intn(nconn)
+			p.Conns[ci].Peer = []PeerOp{{K: "drain"}}
+			for k := r.Range(3, 5); k > 0; k-- {
+				// several producers: together they enqueue faster than the loop executes
+				p.Users = append(p.Users, UserPlan{Ops: []UserOp{{K: "flood", Conn: ci}}})
+			}
+			c.MaxSteps = 60000
+		}
 		if r.Chance(1, 5) && len(p.Conns) > 0 {
 			// Shutdown action from a callback
 			ci := r.Intn(len(p.Conns))
